@@ -16,6 +16,13 @@ VERIF = os.environ.get("VERIF_DIR", "/verif")       # the (snapshot of the) veri
 out = f"/verif/seeded/{pid}_{var}"
 os.makedirs(out, exist_ok=True)
 meta = {"property": pid, "variant": var, "checked_properties": props, "ran": []}
+# earlier evaluations of the same change (older snapshots of /verif) are kept: a miss that led to a stronger check stays visible
+if os.path.exists(f"{out}/meta.json"):
+    try:
+        old = json.load(open(f"{out}/meta.json"))
+        meta["history"] = old.get("history", []) + [{"verif_commit": old.get("verif_commit"), "detected": old.get("detected")}]
+    except Exception:
+        pass
 def run(cmd, **kw):
     t0 = time.time()
     p = subprocess.run(cmd, shell=True, capture_output=True, text=True, **kw)
